@@ -278,6 +278,69 @@ def run(jobs, limit, only_ids=None, props=None):
         t.join()
 
 
+def run_seeds(jobs, names):
+    """Regression over seeded/<name>/patch.diff in scratch copies: every mutant must still be reported
+    with a concrete replay by every check that reported it so when it was recorded (meta.json), every
+    refactoring by none.  Nothing is written back to meta.json."""
+    import queue
+    import threading
+    sd = os.path.join(ROOT, "seeded")
+    todo = []
+    for n in names or sorted(os.listdir(sd)):
+        mp, pp = os.path.join(sd, n, "meta.json"), os.path.join(sd, n, "patch.diff")
+        if os.path.exists(mp) and os.path.exists(pp):
+            todo.append((n, json.load(open(mp)), pp))
+    with ThreadPoolExecutor(max_workers=jobs) as ex:
+        ws = list(ex.map(setup_worker, range(jobs)))
+    q = queue.Queue()
+    for t in todo:
+        q.put(t)
+    lock = threading.Lock()
+    bad = []
+
+    def loop(w):
+        env = worker_env(w)
+        while True:
+            try:
+                n, meta, pp = q.get_nowait()
+            except queue.Empty:
+                return
+            harmless = meta["breaks_property"].startswith("none")
+            props = PROPS if harmless else [meta["breaks_property"]] + [p for p in meta.get("checks", {}) if p != meta["breaks_property"]]
+            rc, out = sh("patch -p1 -s < %s" % pp, cwd=w + "/repo")
+            res = {}
+            try:
+                if rc != 0:
+                    res = {"patch": "does not apply"}
+                else:
+                    for p in props:
+                        rc, o = sh("./check %s" % p, cwd=w + "/verif", env=env, timeout=1500)
+                        line = [l for l in o.splitlines() if l.startswith(("VIOLATION", "OK"))]
+                        line = line[-1] if line else o.strip()[-100:]
+                        res[p] = ("violation (no-failing-input-found)" if "no-failing-input-found" in line else
+                                  "violation with replay" if line.startswith("VIOLATION") else "ok" if line.startswith("OK") else "error: " + line)
+            finally:
+                sh("patch -p1 -R -s < %s" % pp, cwd=w + "/repo")
+            if harmless:
+                worse = [p for p, v in res.items() if v != "ok"]
+            else:
+                worse = [p for p, v in meta.get("checks", {}).items() if v == "violation with replay" and res.get(p) != v]
+            with lock:
+                print("%-14s %s%s" % (n, " ".join("%s=%s" % (p, v.replace("violation ", "").replace("with replay", "replay")
+                                                               .replace("(no-failing-input-found)", "nfi")) for p, v in res.items())
+                                      if not harmless else "refactoring: %d ok" % sum(1 for v in res.values() if v == "ok"),
+                                      "   <-- WORSE: " + ",".join(worse) if worse else ""), flush=True)
+                if worse:
+                    bad.append(n)
+
+    ts = [threading.Thread(target=loop, args=(w,)) for w in ws]
+    for t in ts:
+        t.start()
+    for t in ts:
+        t.join()
+    print("seeded regression:", "all as recorded or better" if not bad else "CHECK %s" % sorted(bad))
+
+
 def report():
     import collections
     rs = [json.loads(l) for l in open(os.path.join(OUT, "results.jsonl"))]
@@ -329,5 +392,8 @@ if __name__ == "__main__":
         ids = set(a[a.index("--ids") + 1].split(",")) if "--ids" in a else None
         pr = a[a.index("--props") + 1].split(",") if "--props" in a else None
         run(j, lim, ids, pr)
+    elif a[0] == "seeds":
+        j = int(a[a.index("-j") + 1]) if "-j" in a else 8
+        run_seeds(j, [x for x in a[1:] if not x.startswith("-") and not x.isdigit()])
     elif a[0] == "report":
         report()
